@@ -104,7 +104,11 @@ def run(F, rep):
     rep.check(not early, 'C06.G1', 'loop|no early exit', fm.where(w), 'the import loop can be left while the model still has imports', 'no break/return inside the loop')
     cfg = fm.cfg()
     rets = [r for r in fm.walk() if r.get('k') == 'Return' and r.get('c') and _can_reach(cfg, cl[0], r)]
-    rep.check(bool(rets) and all(cfg.node_dominates(role(w, 'cond'), r) for r in rets), 'C06.G1', 'return|after loop', fm.where(), 'a return after the clone is not dominated by the loop condition', '%d return(s) after the clone, all dominated by the loop test' % len(rets))
+    # every path from the creation of the flat model to the exit goes through the loop test (dominance of the return would also demand it of the
+    # paths that never create a flat model: a single-exit function returns the null model through the same `return`)
+    from issues import must_pass as _mp6
+    rep.check(bool(rets) and _mp6(cfg, cl[0], [role(w, 'cond')['i']] + [x['i'] for x in walk(role(w, 'cond'))]), 'C06.G1', 'return|after loop', fm.where(), 'after the clone some path reaches the exit without passing the loop test `%s`' % render(role(w, 'cond'))[:40],
+              '%d return(s) reachable from the clone, every path to the exit passes the loop test' % len(rets))
     rep.check(render(role(w, 'cond')).replace(' ', '') in ('flatModel->hasImports()',) and all('flatModel' == render(r['c'][0]) for r in rets), 'C06.G1', 'loop|same object', fm.where(w),
               'the loop tests `%s` but `%s` is returned' % (render(role(w, 'cond')), [render(r['c'][0]) for r in rets]), 'tested and returned object are the same variable')
 
@@ -132,6 +136,8 @@ def run(F, rep):
                         continue
                     args = c['c'][1:] if c.get('mc') else c['c']
                     for a in args:
+                        while a.get('k') in ('Construct', 'Cast', 'Temp', 'Bind', 'Paren') and len(a.get('c', [])) == 1:
+                            a = a['c'][0]      # an implicit conversion of the child pointer (ComponentPtr -> ComponentEntityConstPtr) is still the child
                         direct = a.get('k') == 'Ref' and a.get('d') in kids
                         inline = a.get('k') == 'Call' and a.get('fn') == 'component' and 'component' in (a.get('callee') or '')
                         if direct or inline:
@@ -357,9 +363,11 @@ def run(F, rep):
     rep.rule('C06.O1', 'unitsUsed lists the units a units is built on BEFORE that units (flattenComponent transfers them in list order and resolves equivalent importer units on the way): the insertion of referencedUnits(model, u) precedes the push_back of u on every path')
     from faillog import _can_reach as _cr6
     uu = F.fn_rec('libcellml::unitsUsed') if hasattr(F, 'fn_rec') else F.fn1('libcellml::unitsUsed')
-    cfg6 = uu.cfg()
     n_o1 = 0
-    for v in uu.walk():
+    # unitsUsed itself, or the collector it hands over to (the list may be built by a recursive helper with an accumulator parameter)
+    uus = [uu] + [F.funcs[k_] for k_ in sorted(F.reach([uu.key])) if k_ in F.funcs and F.funcs[k_] is not uu and F.funcs[k_].file == uu.file]
+    for uu, v in [(g_, v_) for g_ in uus for v_ in g_.walk()]:
+        cfg6 = uu.cfg()
         if v.get('k') == 'Var' and v.get('c') and any(c.get('k') == 'Call' and c.get('fn') == 'referencedUnits' for c in walk(v['c'][0])):
             rc_ = next(c for c in walk(v['c'][0]) if c.get('k') == 'Call' and c.get('fn') == 'referencedUnits')
             subj = render(nth_arg(rc_, 1))
